@@ -67,6 +67,38 @@ def random_grammars(n, seed):
     return out
 
 
+def productive_grammars(n, seed):
+    """Random grammars biased towards non-empty languages that need several passes of the marking loop: a chain of
+    rules from S down to an end rule (dup / push / pop steps), plus a few distractors; 4 rules so that all 24
+    permutations are tried."""
+    rnd = random.Random(seed)
+    NT, IDX = ["S", "A", "B", "C"], ["f", "g"]
+    out = []
+    for _ in range(n):
+        order = ["S"] + rnd.sample(["A", "B", "C"], 3)
+        rules = [["end", order[3], "a"]]
+        depth = 0
+        for i in range(2, -1, -1):
+            k = rnd.choice(["dup", "dup", "push", "pop"] if depth else ["dup", "dup", "push"])
+            lower = order[i + 1:]
+            if k == "dup":
+                r = ["dup", order[i], rnd.choice(lower), rnd.choice(lower)]
+            elif k == "push":
+                r = ["push", order[i], order[i + 1], rnd.choice(IDX)]
+            else:
+                r = ["pop", rnd.choice(IDX), order[i], order[i + 1]]
+            if r not in rules:
+                rules.append(r)
+        if rnd.random() < 0.4:
+            extra = rnd.choice([["pop", rnd.choice(IDX), rnd.choice(NT), rnd.choice(NT)],
+                                ["push", rnd.choice(NT), rnd.choice(NT), rnd.choice(IDX)]])
+            if extra not in rules:
+                rules.append(extra)
+        rnd.shuffle(rules)
+        out.append(rules)
+    return out
+
+
 def generate(tier, seed, work, stats):
     rnd = random.Random(seed)
     cases = []
@@ -81,6 +113,8 @@ def generate(tier, seed, work, stats):
                 cases.append(dict(kind="ig", rules=rules, nts=list(nts), idx=list(idx), maxperm=maxperm, family="IGGen"))
     for rules in random_grammars(300 if tier == "quick" else 5000, seed + 17):
         cases.append(dict(kind="ig", rules=rules, nts=["S", "A", "B", "C"], idx=["f", "g"], maxperm=6, family="random"))
+    for rules in productive_grammars(500 if tier == "quick" else 8000, seed + 18):
+        cases.append(dict(kind="ig", rules=rules, nts=["S", "A", "B", "C"], idx=["f", "g"], maxperm=24, family="random-productive"))
     # intersections with automata of the FA generator (terminal "a")
     ops = []
     for kind in ("enfa", "dfa"):
